@@ -6,7 +6,7 @@ import CnlSpec.Sqrt
 scaled_integer over any of these.
 
     C19 sqrt <type> <x> => <result type>:<r> | UB | UNREACHABLE | TIMEOUT
-    C19 sweep32 <i32|u32> <count> <fails> <checksum> => ok       (thorough in-harness exhaustive sweep, summary;
+    C19 sweep32 <i32|u32> <lo> <hi> <count> <fails> => ok       (thorough in-harness exhaustive sweep, summary;
                                                                   every input it rejects is also printed as an
                                                                   ordinary `C19 sqrt` line)
 
@@ -17,8 +17,8 @@ integers, additionally the digit bound for elastic_integer, and the inequality b
 denoted rationals (core `Rat`) for scaled_integer.  Inputs outside the property's quantifier
 (negative values; representation values beyond an elastic/wide type's digits) get `spec = none`.
 -/
-namespace Cnl.Drv
-open Cnl Cnl.Sqrt Cnl.SqrtSpec
+namespace Cnl.Drv.C19
+open Cnl Cnl.Drv Cnl.Sqrt Cnl.SqrtSpec
 
 def hexDigit (c : Char) : Option Nat :=
   if '0' ≤ c ∧ c ≤ '9' then some (c.toNat - '0'.toNat)
@@ -77,6 +77,11 @@ def branchOf : Ty → String
   | .sc r _ _ => "sc/" ++ branchOf r
   | _ => "other"
 
+end Cnl.Drv.C19
+
+namespace Cnl.Drv
+open Cnl Cnl.Sqrt Cnl.SqrtSpec Cnl.Drv.C19
+
 def checkC19 (toks : List String) (res : String) : Option Verdict :=
   match toks with
   | ["sqrt", ty, x] => do
@@ -92,9 +97,11 @@ def checkC19 (toks : List String) (res : String) : Option Verdict :=
     some { model := m, spec := spec,
            branch := branchOf t ++ (if inP then "" else if x < 0 then "/negative" else "/beyond-digits"),
            nontrivial := inP && x ≥ 2 }
-  | ["sweep32", _, _, fails, _] =>
-    -- summary of the in-harness exhaustive search: the harness itself evaluated the inequality
-    some { model := "ok", spec := some (fails == "0"), branch := "sweep32", nontrivial := false }
+  | ["sweep32", _, lo, hi, count, fails] => do
+    -- summary of the in-harness exhaustive search (the harness evaluated the inequality in 64-bit
+    -- arithmetic itself): every value of the range was tried and none was rejected
+    let lo ← lo.toNat?; let hi ← hi.toNat?; let count ← count.toNat?; let fails ← fails.toNat?
+    some { model := "ok", spec := some (fails == 0 && count == hi - lo), branch := "sweep32", nontrivial := false }
   | _ => none
 
 end Cnl.Drv
